@@ -42,6 +42,17 @@ impl<F: Flavour> World<F> {
     /// Obtain a handle of node `u` the way `h` says; falls back to the
     /// original handle when that way is not available in the current state.
     pub fn handle(&self, u: usize, h: Prov) -> F::Node {
+        let got = self.handle_unchecked(u, h);
+        // a traversal or iterator that hands back another node is C04-C10's business: the
+        // operation under test must still be made on node `u`
+        if F::key(&got) == u {
+            got
+        } else {
+            self.nodes[u].clone()
+        }
+    }
+
+    fn handle_unchecked(&self, u: usize, h: Prov) -> F::Node {
         let own = &self.nodes[u];
         match h {
             Prov::Own | Prov::Clone => own.clone(),
@@ -413,6 +424,7 @@ pub fn er(e: GErr) -> Er {
     match e {
         GErr::NotFound => Er::NotFound,
         GErr::Exists => Er::Exists,
+        GErr::Other => Er::Other,
     }
 }
 
